@@ -81,7 +81,7 @@ def bounds(tier):
             "S2_colon": "%d epochs %r x %d upstreams %r x %d revisions %r" % (
                 len(S2_EPOCHS), S2_EPOCHS, len(S2_COLON_UPSTREAMS), S2_COLON_UPSTREAMS, len(S2_REVISIONS), S2_REVISIONS),
             "S2_numeric": "%d digit runs: %r; for each length L in %r: 10**(L-1), 10**(L-1)+9, 10**(L-1)+10, 10**L-1 "
-                          "(no leading zeros) and 0, 1, 9, 10, 10**(L-1)-1, 10**(L-2) padded with zeros to L digits; "
+                          "(no leading zeros) and 0, 1, 9, 10, 10**(L-1)-1 padded with zeros to L digits; "
                           "2**53, 2**53+1, 2**63-1, 2**63, 2**64-1, 2**64 (upstream position only); every run as %s<run> "
                           "and as %s<run>" % (len(s2_runs()), S2_SMALL_RUNS, S2_RUN_LENGTHS, S2_UPSTREAM_PREFIX,
                                               S2_REVISION_PREFIX),
@@ -145,7 +145,7 @@ def s2_runs():
     for n in S2_RUN_LENGTHS:
         out += ["1" + "0" * (n - 1), "1" + "0" * (n - 3) + "09", "1" + "0" * (n - 3) + "10", "9" * n,      # no leading zeros
                 "0" * n, "0" * (n - 1) + "1", "0" * (n - 2) + "09", "0" * (n - 2) + "10",             # small, padded
-                "0" + "9" * (n - 1), "01" + "0" * (n - 2)]                                             # large, one zero
+                "0" + "9" * (n - 1)]                                # = the run of n - 1 nines, with one leading zero
     assert len(set(out)) == len(out)
     return out
 
